@@ -370,18 +370,44 @@ def gen_data(cs, case):
 
 
 # ----------------------------------------------------------------------------------------------- implementation / model adapters
-def build(cs, t, data, required=False):
+CONFIGS = [
+    {},
+    {"on_para_eq_constraint": False, "mode_proj_order": "ineq_eq", "eps_proj_physical": 1e-2},
+    {"on_algo_eq_constraint": False, "on_algo_ineq_constraint": False, "eps_truncate_imaginary_part": 1e-2, "is_estimation_object": False},
+    {"eps_proj_physical": 0.3, "on_para_eq_constraint": False},
+]
+
+
+def relayout(arr, layout):
+    """the same float64 values in another memory layout: 'F' Fortran order, 'view' a non-contiguous strided view of a larger buffer"""
+    arr = np.array(arr, dtype=np.float64)
+    if layout == "F":
+        return np.asfortranarray(arr)
+    if layout == "view":
+        big = np.full(tuple(2 * n + 1 for n in arr.shape), 7.25)
+        sl = tuple(slice(1, None, 2) for _ in arr.shape)
+        big[sl] = arr
+        return big[sl]
+    return arr
+
+
+def build(cs, t, data, required=False, layout="C", cfg=0):
+    """layout / cfg: memory layout of the array arguments and non-default object configuration (projection / parametrisation options,
+    eps_proj_physical, eps_truncate_imaginary_part, MProcess.eps_zero) -- none of which a physicality verdict may depend on"""
     from quara.objects.state import State
     from quara.objects.povm import Povm
     from quara.objects.gate import Gate
     from quara.objects.mprocess import MProcess
+    kw = dict(CONFIGS[cfg % len(CONFIGS)])
     if t == "state":
-        return State(cs.c, np.array(data, dtype=np.float64), is_physicality_required=required)
+        return State(cs.c, relayout(data, layout), is_physicality_required=required, **kw)
     if t == "povm":
-        return Povm(cs.c, [np.array(v, dtype=np.float64) for v in data], is_physicality_required=required)
+        return Povm(cs.c, [relayout(v, layout) for v in data], is_physicality_required=required, **kw)
     if t == "gate":
-        return Gate(cs.c, np.array(data, dtype=np.float64), is_physicality_required=required)
-    return MProcess(cs.c, [np.array(h, dtype=np.float64) for h in data], is_physicality_required=required)
+        return Gate(cs.c, relayout(data, layout), is_physicality_required=required, **kw)
+    if cfg % len(CONFIGS):
+        kw["eps_zero"] = [1e-8, 0.3, 0.0][cfg % 3]
+    return MProcess(cs.c, [relayout(h, layout) for h in data], is_physicality_required=required, **kw)
 
 
 # The runner re-evaluates a sample of the short driver requests inside Coq with vm_compute (extraction cross-check).
@@ -422,17 +448,18 @@ def model_call(ctx, cs, t, data, st, aeq, aineq, rtol, none, rq, want=0, pad=Tru
     return {"eq": bool(r[0]), "ineq": bool(r[1]), "phys": bool(r[2]), "raises": bool(r[3])}
 
 
-def band(ctx, cs, t, data, a_eq, a_ineq, rtol, none, want=0, pad=True):
+def band(ctx, cs, t, data, a_eq, a_ineq, rtol, none, want=0, pad=True, eta=None):
     """expected verdicts outside the ambiguity band: dict key -> True / False / None (in band); plus the low-end raw result"""
     def call(f):
         if none:
             return model_call(ctx, cs, t, data, a_eq * f, GARBAGE, GARBAGE, rtol, True, 1, want, pad)
         return model_call(ctx, cs, t, data, GARBAGE, a_eq * f, a_ineq * f, rtol, False, 0, want, pad)
-    lo = call(1.0 - ETA)
+    eta = ETA if eta is None else eta
+    lo = call(1.0 - eta)
     if lo["eq"] and lo["ineq"] and (t != "mprocess" or cs.flag):
         hi = lo          # monotonicity theorems: every verdict true at the lower tolerance stays true at the upper one
     else:
-        hi = call(1.0 + ETA)
+        hi = call(1.0 + eta)
     out = {}
     for k in ("eq", "ineq", "phys", "raises", "herm"):
         if k in lo:
@@ -508,17 +535,18 @@ def chk_obj(ctx, case):
         if raised != mres["raises"]:
             ctx.violation(sub, "MProcess.__init__", "basis-flag-guard", "constructor on a non-(orthonormal, Hermitian, identity-first) basis: raised=%s, model %s" % (raised, mres["raises"]), case)
         return
-    obj = build(cs, t, data, required=False)
+    lay, cfg, eta = case.get("layout", "C"), int(case.get("cfg", 0)), float(case.get("eta", ETA))
+    obj = build(cs, t, data, required=False, layout=lay, cfg=cfg)
     want = 1 if (t == "gate" and cs.d <= 3) else 0
     has_rtol = t in SLACK_SITE
     # ---- expectations (model with rtol = 0); the rtol = 1e-5 variants are evaluated lazily, only to classify a disagreement
-    n0, n0lo = band(ctx, cs, t, data, a, a, 0.0, True, want)                 # atol=None path (Settings) incl. constructor
-    nc = Lazy(lambda: band(ctx, cs, t, data, a, a, NP_RTOL, True)[0]) if has_rtol else None
+    n0, n0lo = band(ctx, cs, t, data, a, a, 0.0, True, want, eta=eta)                 # atol=None path (Settings) incl. constructor
+    nc = Lazy(lambda: band(ctx, cs, t, data, a, a, NP_RTOL, True, eta=eta)[0]) if has_rtol else None
     if cheap:
-        e0, e0lo = band(ctx, cs, t, data, a, a, 0.0, False)                  # explicit atol arguments
-        ec = Lazy(lambda: band(ctx, cs, t, data, a, a, NP_RTOL, False)[0]) if has_rtol else None
-        x0 = band(ctx, cs, t, data, a, a2, 0.0, False)[0]                    # different tolerances for the two constraints
-        xc = Lazy(lambda: band(ctx, cs, t, data, a, a2, NP_RTOL, False)[0]) if has_rtol else None
+        e0, e0lo = band(ctx, cs, t, data, a, a, 0.0, False, eta=eta)                  # explicit atol arguments
+        ec = Lazy(lambda: band(ctx, cs, t, data, a, a, NP_RTOL, False, eta=eta)[0]) if has_rtol else None
+        x0 = band(ctx, cs, t, data, a, a2, 0.0, False, eta=eta)[0]                    # different tolerances for the two constraints
+        xc = Lazy(lambda: band(ctx, cs, t, data, a, a2, NP_RTOL, False, eta=eta)[0]) if has_rtol else None
     else:
         e0, ec, e0lo = n0, nc, n0lo
         x0 = xc = None
@@ -535,7 +563,7 @@ def chk_obj(ctx, case):
     with WithAtol(a):
         i_eq = obj.is_eq_constraint_satisfied(); i_ineq = obj.is_ineq_constraint_satisfied(); i_ph = obj.is_physical()
         try:
-            build(cs, t, data, required=True); raised = False
+            build(cs, t, data, required=True, layout=lay, cfg=cfg); raised = False
         except ValueError:
             raised = True
     judge(ctx, sub, t, "eq", "is_eq_constraint_satisfied() under Settings atol", i_eq, n0["eq"], L(nc, "eq"), case)
@@ -599,8 +627,15 @@ def make_cases(ctx, t, plan):
             # tolerances: the grid, or (every other case) log-uniform in [1e-13, 1e-2] rounded to 3 significant digits
             a = ATOLS[rng.randrange(len(ATOLS))] if i % 2 == 0 else float("%.2e" % (10.0 ** rng.uniform(-13, -2)))
             a2 = ATOLS[rng.randrange(len(ATOLS))] if i % 3 else float("%.2e" % (10.0 ** rng.uniform(-13, -2)))
-            case = {"type": t, "shape": shape, "basis": kind, "cls": cls, "atol": a, "atol2": a2,
-                    "k": KSW[rng.randrange(len(KSW))] if cls in VIOLATE else None,
+            # NARROW band (every other case with both tolerances >= 1e-8, where rounding is < 1e-6 of the tolerance): expectations at atol*(1 +- 0.05)
+            # and violations of 0.9 / 1.1 times atol -- a threshold off by 10 % is seen
+            narrow = i % 2 == 1 and a >= 1e-8 and a2 >= 1e-8
+            kk = KSW[rng.randrange(len(KSW))]
+            if narrow:
+                kk = [0.9, 1.1, 0.9, 1.1, 0.4, 3.0][rng.randrange(6)]
+            case = {"type": t, "shape": shape, "basis": kind, "cls": cls, "atol": a, "atol2": a2, "eta": 0.05 if narrow else ETA,
+                    "layout": ["C", "F", "view", "C"][rng.randrange(4)], "cfg": rng.randrange(4),
+                    "k": kk if cls in VIOLATE else None,
                     "sign": rng.choice([1, 1, -1]) if cls in ("tr_violate", "sum_diag", "tp_violate") else 1,
                     "m": rng.randint(2, 5), "seed": rng.randrange(2 ** 31),
                     "aligned": (i % 3 == 1) and kind != "comp"}     # axis-aligned objects (diagonal in the computational basis / Pauli-like channels)
@@ -889,10 +924,23 @@ def chk_history(ctx, case):
         s0 = float(case["settings0"])
         Settings.set_atol(s0)
         req = bool(case["required"]) and expected("phys", s0, s0) is True      # the constructor's implicit query (must not raise: physical at s0)
-        obj = build(cs, t, data, required=req)
+        obj = build(cs, t, data, required=req, layout=case.get("layout", "C"), cfg=int(case.get("cfg", 0)))   # the fresh objects below: default layout / configuration
         for n, (fi, mode, tol, tol2, setting) in enumerate(steps):
             fn, key = HIST_FNS[t][fi % len(HIST_FNS[t])]
             Settings.set_atol(float(setting))
+            if Settings.get_atol() != float(setting):
+                ctx.violation("history", "Settings.set_atol", "setting-not-stored", "after Settings.set_atol(%r) Settings.get_atol() returns %r" % (float(setting), Settings.get_atol()), case)
+                return
+            if n == 0:          # a non-float argument is rejected and leaves the setting unchanged (C01_gen_settings_guard_and_purity)
+                for badv in (1, None, "1e-3"):
+                    try:
+                        Settings.set_atol(badv); rej = False
+                    except TypeError:
+                        rej = True
+                    if not rej or Settings.get_atol() != float(setting):
+                        ctx.violation("history", "Settings.set_atol", "non-float-accepted", "Settings.set_atol(%r): rejected=%s, get_atol() afterwards %r (was %r)" % (badv, rej, Settings.get_atol(), float(setting)), case)
+                        Settings.set_atol(float(setting))
+                        return
             # tolerance in force for the equality / the inequality part of this call
             if mode == "none":
                 a_eq = a_in = None; te = ti = float(setting)
@@ -959,7 +1007,8 @@ def sub_history(ctx):
             for fi in range(nf):
                 steps.append([fi, "none", None, None, order[1]])
             cases.append({"type": t, "shape": shape, "basis": kinds[i % len(kinds)], "de": de, "di": di, "m": rng.randint(2, 3), "seed": rng.randrange(2 ** 31),
-                          "settings0": order[0], "required": i % 3 != 2, "steps": steps, "aligned": i % 2 == 1, "null": t == "mprocess" and i % 4 >= 2})
+                          "settings0": order[0], "required": i % 3 != 2, "steps": steps, "aligned": i % 2 == 1, "null": t == "mprocess" and i % 4 >= 2,
+                          "layout": ["C", "F", "view"][i % 3], "cfg": i % 4})
     ctx.sample("history", cases[0]); ctx.run_cases("history", chk_history, cases)
 
 
